@@ -47,7 +47,13 @@ def replay_cases(run, table, nprng):
         copy = bool(k & 1)
         arg = seg.copy()
         kw = {} if c["none"] else {"dft_size": D}
-        got = util.circshift_fourier(arg, shift, start_idx=start, copy=copy, **kw)
+        if k % 3 == 0:
+            # (positionally, in the documented order: filt, shift, start_idx, dft_size, copy)
+            got = util.circshift_fourier(arg, shift, start, None if c["none"] else D, copy)
+        elif k % 3 == 1 and c["none"]:
+            got = util.circshift_fourier(arg, shift, start, copy=copy)
+        else:
+            got = util.circshift_fourier(arg, shift, start_idx=start, copy=copy, **kw)
         run.evaluations += 1
         if got.shape != exp.shape or not np.allclose(got, exp, rtol=0, atol=1e-9):
             run.violation({"kind": "circshift_differs_from_shift_theorem", "case": {q: c[q] for q in ("D", "p", "shift", "start", "len", "none")},
